@@ -803,7 +803,9 @@ def items(tier):
                 bcs = dict(zip(SIDES[:2 * dim], combo))
                 add("fc-radius", "%s-r%s-%s" % (_tag(mesh), rad, _btag(bcs, dim)), mesh=mesh, radius=rad, bcs=bcs,
                     default_units=(t == 0))
-        for rad in (["1.5", "2.5"] if q else ["0.4", "1.5", "2.5", "4.5"]):
+        # absolute units: every non-square squared distance is an algebraic constant s (s*s == q) and the cone weights
+        # max(0, r - s) stay If-terms; the cost grows quickly with the number of such constants inside the radius
+        for rad in (["1.5", "2.5"] if (q or dim == 2) else ["1.5"]) + ([] if (q or dim == 3) else ["0.4"]):
             for t, combo in enumerate([pw[0], pw[(3 + mesh[1]) % len(pw)]]):
                 bcs = dict(zip(SIDES[:2 * dim], combo))
                 add("fc-radius", "%s-abs-r%s-%s" % (_tag(mesh), rad, _btag(bcs, dim)), mesh=mesh, radius=rad, bcs=bcs,
@@ -814,8 +816,8 @@ def items(tier):
         for t, combo in enumerate([pw[0], pw[(2 + mesh[0]) % len(pw)]]):
             bcs = dict(zip(SIDES[:2 * dim], combo))
             add("fc-radius", "%s-symr-%s" % (_tag(mesh), _btag(bcs, dim)), mesh=mesh, symradius=["0.3", top], bcs=bcs)
-        if mesh in ((3, 2, 0), (2, 2, 2)):
-            add("fc-radius", "%s-abs-symr-%s" % (_tag(mesh), _btag({}, dim)), mesh=mesh, symradius=["0.3", top], bcs={},
+        if mesh == (3, 2, 0):
+            add("fc-radius", "%s-abs-symr-%s" % (_tag(mesh), _btag({}, dim)), mesh=mesh, symradius=["0.3", "3.6" if q else "2.6"], bcs={},
                 relative=False, elsize=["1/2", "2", "1"])
     # ---- DensityFilter
     for mesh in meshes2 + meshes3:
